@@ -19,6 +19,8 @@ type Env struct {
 	HashMod int
 	Cache   sop.L2Cache
 	Rec     *Recorder
+	// LastRegistryDec is the registry decorator of the most recently created decorated transaction.
+	LastRegistryDec *RegistryDec
 }
 
 // NewEnv creates (or reuses) the database folder.
@@ -70,7 +72,9 @@ func (e *Env) NewTxn(ctx context.Context, mode sop.TransactionMode, maxTime time
 	if !plain {
 		bs = &BlobDec{Inner: bs, R: e.Rec, Txn: label}
 		srI = &StoreRepoDec{Inner: sr, R: e.Rec, Txn: label}
-		reg = &RegistryDec{Inner: reg, R: e.Rec, Txn: label}
+		rd := &RegistryDec{Inner: reg, R: e.Rec, Txn: label}
+		e.LastRegistryDec = rd
+		reg = rd
 		l2 = &CacheDec{L2Cache: e.Cache, R: e.Rec, Txn: label}
 		tlI = NewTLogDec(tl, e.Rec, label)
 	}
